@@ -189,7 +189,7 @@ func ruleStartChunkEffects(c *Ctx, r *Report, t *chunkTables, prefix string) {
 				if len(a) != 4 || !isFieldLoadOf(a[2], fDict) || !isFieldLoadPlusConst(a[3], fUnc, 1) {
 					argBad["newDecoder"] = "newDecoder must get the reader's dictionary and size = uncompressed+1"
 				}
-				if cs, ok := a[1].(*ssa.Call); !ok || cs.Call.StaticCallee() != newState {
+				if cs, ok := p.Resolve(a[1]).(*ssa.Call); !ok || cs.Call.StaticCallee() != newState {
 					argBad["newDecoder.state"] = "the first compressed chunk must start from newState(header.props)"
 				}
 				return "newDecoder"
@@ -237,6 +237,17 @@ func ruleStartChunkEffects(c *Ctx, r *Report, t *chunkTables, prefix string) {
 			if st, ok := storeToField(ins, fState); ok {
 				if cs, ok := st.Val.(*ssa.Call); ok && cs.Call.StaticCallee() == newState {
 					return "State=newState"
+				}
+				// the value a new helper hands back on this path
+				switch rv := p.Resolve(st.Val).(type) {
+				case *ssa.Call:
+					if rv.Call.StaticCallee() == newState {
+						return "State=newState"
+					}
+				case *ssa.UnOp:
+					if isFieldLoadOf(rv, fState) {
+						return "" // the decoder keeps the state it has
+					}
 				}
 				return "State=other"
 			}
